@@ -716,6 +716,8 @@ def _create_relabel_map(array, start_label=1):
         then `None` is returned.
     """
     labels = _get_labels(array)
+    if len(labels) == 0:  # nothing to relabel
+        return None
 
     # check if the labels are already consecutive starting from
     # start_label
